@@ -1,6 +1,6 @@
 from mindsdb_sql import OrderBy
 from mindsdb_sql.exceptions import PlanningException
-from mindsdb_sql.parser.ast import Identifier, Operation, BinaryOperation, BetweenOperation
+from mindsdb_sql.parser.ast import Identifier, Operation, BinaryOperation, BetweenOperation, Tuple
 
 
 def find_time_filter(op, time_column_name):
@@ -61,7 +61,15 @@ def validate_ts_where_condition(op, allowed_columns, allow_and=True):
         raise PlanningException(
             f'For time series predictors only the following operations are allowed in WHERE: {str(allowed_ops)}, found instead: {str(op)}.')
 
+    args = []
     for arg in op.args:
+        if isinstance(arg, Tuple):
+            # list of values of IN
+            args.extend(arg.items)
+        else:
+            args.append(arg)
+
+    for arg in args:
         if isinstance(arg, Identifier):
             if arg.parts[-1].lower() not in allowed_columns:
                 raise PlanningException(
@@ -69,10 +77,9 @@ def validate_ts_where_condition(op, allowed_columns, allow_and=True):
             # remove alias
             arg.parts = [arg.parts[-1]]
 
-    if isinstance(op.args[0], Operation):
-        validate_ts_where_condition(op.args[0], allowed_columns, allow_and=True)
-    if isinstance(op.args[1], Operation):
-        validate_ts_where_condition(op.args[1], allowed_columns, allow_and=True)
+    for arg in args:
+        if isinstance(arg, Operation):
+            validate_ts_where_condition(arg, allowed_columns, allow_and=True)
 
 
 def recursively_check_join_identifiers_for_ambiguity(item, aliased_fields=None):
